@@ -10,7 +10,7 @@ rm -rf out/work/sany && mkdir -p out/work/sany && cp spec/*.tla out/work/sany/
 cd out/work/sany
 fail=0
 for f in *.tla; do
-  if ! java -cp /opt/veriftools/tla/tla2tools.jar:/opt/veriftools/tla/CommunityModules-deps.jar tla2sany.SANY "$f" > "$f.log" 2>&1 || grep -q "Parse Error\|Semantic errors\|Could not find module" "$f.log"; then
+  if ! java -cp /opt/veriftools/tla/tla2tools.jar:/opt/veriftools/tla/CommunityModules-deps.jar tla2sany.SANY "$f" > "$f.log" 2>&1 || grep -q "Parse Error\|Semantic errors\|Could not find module\|\*\*\* Errors" "$f.log"; then
     echo "SANY failed on $f"; tail -5 "$f.log"; fail=1
   fi
 done
